@@ -841,6 +841,12 @@ func (ex *Exec) builtin(st *State, c *ssa.Call, bi *ssa.Builtin) {
 		lo, hi := slOff(dst), add(slOff(dst), n)
 		ex.frameCheck(st, fmt.Sprintf("frame/copy#%d", ord), c.Pos(), args[0], []frameTarget{{Fam: f.Name, Obj: slArr(dst), Lo: &lo, Hi: &hi}})
 		st.updateElems(f, slArr(dst), lo, hi, tTrue, func(abs Term) Term { return srcAt(sub(abs, lo)) })
+		if !isStringType(args[1].Type()) {
+			// forward trigger: a known source element determines the destination element
+			j := Term{"j!c", SInt}
+			srcT := srcAt(j)
+			st.sc.emit("(assert (forall ((j!c Int)) (! (=> (and (<= 0 j!c) (< j!c %s)) (= %s %s)) :pattern (%s))))", n.S, st.getElem(st.heap, f, dst, j).S, srcT.S, srcT.S)
+		}
 		st.vals[c] = n
 	case "delete":
 		mt := args[0].Type().Underlying().(*types.Map)
@@ -914,6 +920,16 @@ func (ex *Exec) appendOp(st *State, c *ssa.Call, ord int) {
 	res := st.sc.fresh("app_res", SSlice)
 	st.sc.assert(eq(res, ite(inplace, mkSlice(slArr(s), slOff(s), newLen, slCap(s)), mkSlice(id, intLit(0), newLen, ncap))))
 	st.vals[c] = res
+	{
+		// forward triggers: known elements of the old slice / of the appended values determine elements of the result
+		j := Term{"j!a", SInt}
+		oldT := st.getElem(oldSnapS, f, s, j)
+		st.sc.emit("(assert (forall ((j!a Int)) (! (=> (and (<= 0 j!a) (< j!a (s-len %s))) (= %s %s)) :pattern (%s))))", s.S, st.getElem(st.heap, f, res, j).S, oldT.S, oldT.S)
+		if !isStringType(args[1].Type()) {
+			srcT := srcAt(j)
+			st.sc.emit("(assert (forall ((j!a Int)) (! (=> (and (<= 0 j!a) (< j!a %s)) (= %s %s)) :pattern (%s))))", n.S, st.getElem(st.heap, f, res, add(slLen(s), j)).S, srcT.S, srcT.S)
+		}
+	}
 }
 
 // closureContract: contract and capture bindings of a statically known function value
